@@ -144,7 +144,7 @@ class Generator:
             j = i + 1
             while j < len(lines):
                 sj = lines[j].strip()
-                if re.match(r"^//@(\||loop\s|rewrite|rewriteall|before|afterstmt|after)", sj):
+                if re.match(r"^//@(\||loop\s|rewrite|rewriteall|before|afterstmt|after|sig\s|from\s|to\s)", sj):
                     cont.append(sj)
                     j += 1
                 else:
@@ -156,6 +156,8 @@ class Generator:
                 self._emit_type(rest, cont, g)
             elif cmd in ("fn", "stub"):
                 self._emit_fn(cmd, rest, cont, g)
+            elif cmd == "region":
+                self._emit_region(rest, cont, g)
             elif cmd == "shims":
                 self._emit_shims(rest, g)
             elif cmd == "broadcast":
@@ -166,6 +168,57 @@ class Generator:
                 g.lines.append("// " + s[3:])
             else:
                 raise AnchorLost("unknown directive %s" % cmd)
+
+    def _emit_region(self, rest, cont, g):
+        """`//@ region <src> <fnpath>` + `//@sig <signature text>` + `//@from <<<anchor>>>` + `//@to <<<anchor>>>`
+        (+ rewrite / `//@|` contract lines): the statements of the named function between the two
+        anchors (inclusive) are copied verbatim and wrapped as the body of a function with the given
+        signature.  Used only for critical sections that live inside closures (C20); this is a
+        substitution-based extraction and is reported as such (level `other`)."""
+        pos, opts = self._opts(rest)
+        rel, path = pos[0], pos[1]
+        it = self.find(rel, path)
+        sf = self.source(rel)
+        text = sf.src[sf.toks[it.body_open].start:sf.toks[it.body_close].end]
+        sig = frm = to = None
+        spec, edits = "", []
+        for c in cont:
+            m = re.match(r"^//@sig\s+(.*)$", c)
+            if m: sig = m.group(1); continue
+            m = re.match(r"^//@from\s*<<<(.*)>>>\s*$", c)
+            if m: frm = m.group(1); continue
+            m = re.match(r"^//@to\s*<<<(.*)>>>\s*$", c)
+            if m: to = m.group(1); continue
+            m = re.match(r"^//@\|\s?(.*)$", c)
+            if m: spec += m.group(1) + "\n"; continue
+            edits.append(c)
+        if not (sig and frm and to):
+            raise AnchorLost("region needs sig/from/to")
+        mf = list(self._ws_regex(frm).finditer(text))
+        mt = list(self._ws_regex(to).finditer(text))
+        if len(mf) != 1 or len(mt) != 1 or mt[0].end() <= mf[0].start():
+            raise AnchorLost("region anchors not found exactly once in %s (from:%d to:%d)" % (path, len(mf), len(mt)))
+        body = text[mf[0].start():mt[0].end()]
+        rules = ["E1' region of %s between `%s` and `%s` wrapped as `%s` (substitution-based extraction)" % (path, frm[:50], to[:50], sig[:80])]
+        for c in edits:
+            if c.startswith("//@rewrite"):
+                body = self._apply_cont_rewrite(c, body, rules, it)
+        body = self._rewrite_macros(body, rules, od=False)
+        for c in edits:
+            if c.startswith("//@before") or c.startswith("//@after"):
+                body = self._apply_insert(c, "{" + body + "}", rules, it)[1:-1]
+        line = sf.src.count("\n", 0, sf.toks[it.body_open].start + mf[0].start()) + 1
+        lo = len(g.lines) + 1
+        g.lines.append("// >>> [region] %s:%d %s" % (rel, line, path))
+        g.lines.append(sig)
+        if spec.strip():
+            g.lines += ["    " + l for l in spec.rstrip("\n").split("\n")]
+        g.lines.append("{")
+        g.lines += body.split("\n")
+        g.lines.append("}")
+        g.lines.append("// <<<")
+        g.items.append(dict(kind="fn", name=path + "[region]", src=rel, src_line=line, gen_lo=lo, gen_hi=len(g.lines),
+                            rules=rules, mode="verified", spec=None))
 
     def _emit_shims(self, rest, g):
         """`//@ shims a::b c` -> nested modules that glob re-export the crate root, so that the
